@@ -41,7 +41,11 @@ ASSUMPTIONS = [
 MONITORS = ["sequential_reads_checked", "concurrent_reads_checked", "loads_observed", "transform_applications_observed", "clears_observed", "concurrent_histories"]
 THOROUGH_SHARDS = 8
 
-PAYLOADS = ["tensor", "ndarray", "bytes", "pil", "tuple", "dict", "none", "nested", "int"]
+PAYLOADS = ["tensor", "ndarray", "bytes", "pil", "tuple", "dict", "none", "nested", "int", "named"]
+
+import collections  # noqa: E402
+
+SampleNT = collections.namedtuple("SampleNT", ["x", "meta"])  # module level: picklable
 
 
 def _payload(kind, i):
@@ -64,6 +68,9 @@ def _payload(kind, i):
         return [{"a": (np.float32(i), [torch.zeros(1) + i])}, (b"b", i)]
     if kind == "int":
         return i
+    if kind == "named":
+        # container SUBCLASSES: a namedtuple holding an OrderedDict and a torch.Size - what comes back must be the same types
+        return SampleNT(x=torch.ones(2) * i, meta=collections.OrderedDict([("b", i), ("a", [i, i + 1]), ("shape", torch.Size([i + 1, 2]))]))
     raise ValueError(kind)
 
 
@@ -128,6 +135,17 @@ class Marker:
         return ("T", sample)
 
 
+class OtherMarker(Marker):
+    """a second, different post-cache transform (assigned to the public `transform` attribute in the middle of a history)"""
+
+    def __call__(self, sample):
+        super().__call__(sample)
+        return ("O", sample)
+
+
+_ORIG_TR = {}   # id(pooled cache) -> the transform it was constructed with
+
+
 def _bump(v):
     """what an in-place post-cache transform does: +1 on every tensor / ndarray inside the sample (in place)"""
     if torch.is_tensor(v):
@@ -171,8 +189,17 @@ def _kd_marker(log_path):
     return KDMarker(log_path)
 
 
+def _types_of(v):
+    """nested container type names (a cache may not turn a namedtuple into a tuple or an OrderedDict into a dict)"""
+    if isinstance(v, dict):
+        return (type(v).__name__, tuple((str(k), _types_of(x)) for k, x in v.items()))
+    if isinstance(v, (list, tuple)):
+        return (type(v).__name__, tuple(_types_of(x) for x in v))
+    return type(v).__name__ if isinstance(v, (torch.Tensor, np.ndarray, bytes, str, int, float, type(None))) else "obj"
+
+
 def _digest(v):
-    return hashlib.sha1(repr(canon_value(v)).encode()).hexdigest()[:20]
+    return hashlib.sha1(repr((canon_value(v), _types_of(v))).encode()).hexdigest()[:20]
 
 
 def _read_log(path):
@@ -215,6 +242,8 @@ def gen_cases(run):
                 ops.append(["iter"])                          # list(cached): legacy __getitem__ iteration protocol, ends with IndexError
             elif r < 0.17:
                 ops.append(["loader", rng.choice([1, 2, 3])])  # one pass of torch DataLoader(cached, batch_size=k) in this process (batched fetch path)
+            elif r < 0.172:
+                ops.append(["set_transform", rng.choice(["none", "marker", "other"])])  # the public `transform` attribute is reassigned mid-history
             elif r < 0.18:
                 # a second handle to the same cache (copy / pickle round trip, what spawn-started workers hold) is created and garbage
                 # collected; or a clear is issued by ANOTHER process (a reader / worker) that then exits
@@ -229,6 +258,8 @@ def gen_cases(run):
         # in-place / KDTransform-typed transforms only on payloads that contain tensors or arrays (keeps the number of Manager processes down)
         # "base_tf": no post-cache transform, but the wrapped dataset has (and applies) a `transform` attribute of its own
         kinds = [True, "inplace", "kd", "inplace", False, "base_tf"] if payload in ("tensor", "tuple", "dict", "nested", "ndarray") else [True, True, False, "base_tf"]
+        if payload == "named":
+            kinds = [False, True]
         yield {"kind": "seq", "payload": payload, "nkeys": nkeys, "ops": ops, "transform": rng.choice(kinds)}
     for i in range(n_conc):
         readers = rng.choice([2, 3, 4, 6, 8, 12]) if run.tier == "thorough" else rng.choice([2, 3, 4, 6])
@@ -314,15 +345,32 @@ def run_case(run, spec):
         return _run_concurrent(run, spec)
     cached, tmp, tail_loads, tail_tr = _pooled(spec["payload"], spec["transform"])
     run.cover("seq", spec["payload"], spec["nkeys"], spec["transform"], any(o[0] == "clear" for o in spec["ops"]))
-    post = spec["transform"] not in (False, "base_tf")  # is there a post-cache transform?
+    # the cache object is pooled: every history starts with the post-cache transform the cache was constructed with
+    if id(cached) in _ORIG_TR:
+        cached.transform = _ORIG_TR[id(cached)]
+    else:
+        _ORIG_TR[id(cached)] = cached.transform
+    cur = {"mode": spec["transform"]}   # what the PUBLIC `transform` attribute currently is (set_transform ops change it)
+
+    class _Post:
+        def __bool__(self):
+            return cur["mode"] not in (False, "base_tf")
+    post = _Post()  # is there a post-cache transform right now?
 
     def _expected(q):
-        if spec["transform"] == "base_tf":
+        m = cur["mode"]
+        if m == "base_tf":
             return ("B", _payload(spec["payload"], q))
-        if spec["transform"] == "inplace":
+        if m == "inplace":
             return ("T", _bump(_payload(spec["payload"], q)))
-        return ("T", _payload(spec["payload"], q)) if spec["transform"] else _payload(spec["payload"], q)
-    want = {i: _digest(_expected(i)) for i in range(spec["nkeys"])}
+        if m == "other":
+            return ("O", _payload(spec["payload"], q))
+        return ("T", _payload(spec["payload"], q)) if m else _payload(spec["payload"], q)
+
+    class _Want:
+        def __getitem__(self, i):
+            return _digest(_expected(int(i)))
+    want = _Want()
     if len(cached) != 8 or cached.marker != "base-attr":
         run.violation("seq:delegation", f"len / attribute delegation of the cached dataset: len={len(cached)}, marker={getattr(cached, 'marker', None)!r}")
         return
@@ -335,6 +383,17 @@ def run_case(run, spec):
             cached.dispose()
             loaded_since_clear = set()
             run.count("clears_observed")
+            continue
+        if op[0] == "set_transform":
+            if spec["transform"] not in (True, False):
+                continue
+            if op[1] == "none":
+                cached.transform, cur["mode"] = None, False
+            elif op[1] == "marker":
+                cached.transform, cur["mode"] = Marker(str(tmp / "transform.log")), True
+            else:
+                cached.transform, cur["mode"] = OtherMarker(str(tmp / "transform.log")), "other"
+            run.count("transform_reassignments")
             continue
         if op[0] in ("handle_copy_gc", "handle_pickle_gc"):
             bad = _second_handle(run, cached, op[0], step, want, tail_loads, tail_tr, loaded_since_clear)
